@@ -334,6 +334,11 @@ func (st *ShuttermintState) handleEonStarted(
 	if err != nil {
 		return nil
 	}
+	if batchConfig.Threshold < 1 || int(batchConfig.Threshold) > len(keypers) {
+		log.Error().Uint64("eon", e.Eon).Int32("threshold", batchConfig.Threshold).Int("num-keypers", len(keypers)).
+			Msg("ignoring eon whose keyper config has an invalid threshold")
+		return nil
+	}
 
 	keypermetrics.MetricsKeyperEonStartBlock.WithLabelValues(strconv.FormatUint(e.Eon, 10)).Set(float64(e.ActivationBlockNumber))
 
